@@ -311,8 +311,35 @@ func (vc *VC) binop(st *State, op token.Token, a, b Val, ta, tb types.Type) Val 
 			return eq
 		}
 		return Not(eq)
-	case *PtrV, *FuncV:
+	case *PtrV:
+		if av.Kind != PHeap && (op == token.EQL || op == token.NEQ) {
+			// the address of a local or global is never nil and equals only itself
+			eq := False()
+			if bp, ok := b.(*PtrV); ok {
+				eq = BoolC(sameVal(av, bp))
+			}
+			if op == token.EQL {
+				return eq
+			}
+			return Not(eq)
+		}
+		if bt, ok := b.(*Term); ok && bt.IsConst && bt.Sort.Kind == SInt && bt.Int.Sign() == 0 && av.Base != nil && (op == token.EQL || op == token.NEQ) {
+			// comparison with nil: an interior pointer is nil only if its base is
+			eq := Eq(av.Base, IntC(0))
+			if op == token.EQL {
+				return eq
+			}
+			return Not(eq)
+		}
 		a = st.toTerm(a, ta)
+	case *FuncV:
+		a = st.toTerm(a, ta)
+	}
+	if bp, ok := b.(*PtrV); ok && bp.Kind != PHeap && (op == token.EQL || op == token.NEQ) {
+		if op == token.EQL {
+			return False()
+		}
+		return True()
 	}
 	switch b.(type) {
 	case *PtrV, *FuncV:
@@ -774,6 +801,10 @@ func (vc *VC) indexVal(fx *FuncCtx, x *ssa.Index, st *State, fr *Frame) Val {
 	if av, ok := vc.val(fx, fr, x.X).(*ArrV); ok {
 		vc.check(fx, st, And(Le(IntC(0), idx), Lt(idx, IntC(av.N))), "index out of range", x.Pos())
 		return Select(av.A, idx)
+	}
+	if s, ok := vc.val(fx, fr, x.X).(*Term); ok && s.Sort == StrSort {
+		vc.check(fx, st, And(Le(IntC(0), idx), Lt(idx, StrLen(s))), "index out of range", x.Pos())
+		return StrAt(s, idx)
 	}
 	fv, _ := vc.freshVal("index", x.Type())
 	st.setTaint("unsupported Index")
